@@ -43,6 +43,9 @@ class LoopMixin:
 
     def inv_frame(self, frame, extra):
         f = E.Frame("<spec>", frame.ci, self.visible_locals(frame), None, "inv")
+        for a_, b_ in getattr(self, "acc_alias", {}).items():
+            if a_ not in f.locals and b_ in f.locals:
+                f.locals[a_] = f.locals[b_]        # a renamed accumulator: the contract keeps calling it by its old name
         f.locals.update(self.run.ghost)
         f.locals.update(extra)
         return f
@@ -201,6 +204,22 @@ class LoopMixin:
     def cut_for_body(self, node, frame, spec, header, n, elem):
         run = self.run
         run.cut = True
+        # a local accumulator the contract declares (spec["types"]) that no longer exists under that name, while the loop body writes exactly one
+        # local container the contract does not know: the accumulator was renamed -- the contract's name becomes an alias of the new one
+        vis = self.visible_locals(frame)
+        missing = [t_ for t_ in spec.get("types", {}) if t_.isidentifier() and t_ not in vis]
+        if missing:
+            try:
+                locs_, paths_ = self.write_set(node.body + node.orelse, frame)
+            except Exception:      # noqa
+                locs_, paths_ = set(), set()
+            cands = [x_ for x_ in sorted(set(locs_) | {p_ for p_ in paths_ if p_.isidentifier()})
+                     if x_ in vis and x_ not in spec.get("types", {}) and isinstance(vis[x_], VRef) and vis[x_].kind in ("list", "dict", "set")]
+            if len(missing) == 1 and len(cands) == 1:
+                if not hasattr(self, "acc_alias"):
+                    self.acc_alias = {}
+                self.acc_alias[missing[0]] = cands[0]
+                spec = dict(spec, types=dict(spec.get("types", {}), **{cands[0]: spec["types"][missing[0]]}))
         invs = spec.get("invariant", [])
         for i, inv in enumerate(invs):
             self.ctx.oblige(self, "loop-init", f"{header}#{i}", self.eval_inv(inv, frame, {"_k": VInt(0), "_n": VInt(n)}),
